@@ -201,7 +201,8 @@ structure P9218 where
   ring : Nat → List Nat := fun _ => []
   /-- `streams[id].priority` of the open streams (`none`: `location == nil`) -/
   prio : Nat → Option Nat := fun _ => none
-  toggle : Bool := false      -- prioritizeIncremental
+  /-- `prioritizeIncremental[u]`: try the incremental class first the next time urgency level `u` is served -/
+  pref : Nat → Bool := fun _ => true
   bufId : Nat := 0            -- priorityUpdateBuf.streamID
   bufClass : Nat := 0         -- priorityUpdateBuf.priority
 
@@ -235,9 +236,9 @@ def P9218.push (s : P9218) (f : Frame) : P9218 × Res :=
   else if f.dataSize > 0 then (s, .panic)
   else ({ s with control := s.control.push f }, .ok)
 
-/-- Order in which `Pop` visits the classes, given the (already flipped) `prioritizeIncremental`. -/
-def classOrder (incFirst : Bool) : List Nat :=
-  (List.range 8).flatMap fun u => if incFirst then [2 * u + 1, 2 * u] else [2 * u, 2 * u + 1]
+/-- Order in which `Pop` visits the classes, given `prioritizeIncremental` per urgency level. -/
+def classOrder (pref : Nat → Bool) : List Nat :=
+  (List.range 8).flatMap fun u => if pref u then [2 * u + 1, 2 * u] else [2 * u, 2 * u + 1]
 
 /-- First class of `cs` holding a sendable stream, with the split of its ring. -/
 def firstClass (e : Env) (qs : Nat → WQ) (ring : Nat → List Nat) :
@@ -252,15 +253,15 @@ def P9218.pop (e : Env) (s : P9218) : Env × P9218 × Res :=
   match s.control.shift with
   | some (f, c) => (e, { s with control := c }, .frame f)
   | none =>
-    let t := !s.toggle
-    match firstClass e s.qs s.ring (classOrder t) with
-    | none => (e, { s with toggle := t }, .none)
+    match firstClass e s.qs s.ring (classOrder s.pref) with
+    | none => (e, s, .none)
     | some (c, pre, id, post) =>
       match (s.qs id).consume e maxInt32 with
       | (e', q', some f) =>
         let r := if c % 2 = 1 then post ++ pre ++ [id] else id :: (post ++ pre)
-        (e', { s with toggle := t, qs := upd s.qs id q', ring := upd s.ring c r }, .frame f)
-      | (_, _, none) => (e, { s with toggle := t }, .none)
+        -- `ws.prioritizeIncremental[u] = i == 0`: next time this level is served, the other class goes first
+        (e', { s with pref := upd s.pref (c / 2) (c % 2 == 0), qs := upd s.qs id q', ring := upd s.ring c r }, .frame f)
+      | (_, _, none) => (e, s, .none)
 
 /-! ## Random scheduler.  Go iterates over a map; the caller reports which stream was served
 (`hint`) and the model checks that the report is a legal outcome. -/
